@@ -79,6 +79,15 @@ namespace OP2Utility
 		stream.Read(mapHeader);
 		CheckMinVersionTag(mapHeader.versionTag);
 
+		// The width is stored as a base 2 logarithm and the tile count must be representable in 32 bits.
+		// Reject other values: shifting by 32 or more is undefined, and an overflowed tile count
+		// would silently produce a tile container that does not match the map dimensions
+		if (mapHeader.lgWidthInTiles >= 32 ||
+			(static_cast<uint64_t>(mapHeader.heightInTiles) << mapHeader.lgWidthInTiles) > UINT32_MAX) {
+			throw std::runtime_error("Map dimensions are too large. Log base 2 of width in tiles: " +
+				std::to_string(mapHeader.lgWidthInTiles) + ". Height in tiles: " + std::to_string(mapHeader.heightInTiles));
+		}
+
 		Map map;
 		map.versionTag = mapHeader.versionTag;
 		map.isSavedGame = mapHeader.bSavedGame;
